@@ -30,9 +30,14 @@ Recorded line (one JSON object per event, see PresenceTrace.tla):
           (request in flight), w = writes applied by the call as the store logged
           them [{op, path, o (owner at that instant, -1 none), a (applied)}],
           fired = [[host, container]] retry_request calls in the order applied
+  extension (World(ext=True), DESIGN.md 10.6): the helpers of treadmill/presence.py run
+          by an administrator thread under the same turnstile -- abegin {kind kill|unreg,
+          h, a}, acall {s 900, rk, rh, ra, op, path, res, w, fired} = ONE ZooKeeper
+          call of presence.kill_node / EndpointPresence.unregister_*, aend {res}
   post    nodes {path: {d, o}}, pres {host: {path: container}} (the services' maps),
           queue {host: [[kind, c]]}, active {host: [c]}, sess {host: n}, linger [n],
-          next {host: [op, path] the call the request in flight is stopped at, or []}
+          next {host: [op, path] the call the request in flight is stopped at, or []},
+          anext [op, path] the call the helper run is stopped at, or []
 """
 import glob as _glob
 import logging
@@ -47,6 +52,7 @@ from . import core, tlc, zkfake
 core.ensure_repo_on_path()
 
 WATCHDOG_S = 60.0
+ADMIN_SESSION = 900     # session of the administrator in the log (AdmSess in Presence.tla)
 _REAL_GLOB = _glob.glob
 
 
@@ -89,10 +95,16 @@ def make_scn(name, conts, hosts=('host1', 'host2'), endpoints=('http',), identit
             if identity:
                 ds.append('{"app": "%s", "host": "%s"}' % (app[a], h))
             data[h][c] = ds
+    ext = dict(srv={h: '/servers/' + h for h in hosts},
+               plc={h: '/placement/' + h for h in hosts},
+               sch={a: '/scheduled/' + app[a] for a in insts},
+               sproot='/server.presence',
+               sp={h: '/server.presence/%s#%010d' % (h, i + 1) for i, h in enumerate(hosts)},
+               iorder=sorted(insts, key=lambda a: app[a]))
     return dict(name=name, hosts=list(hosts), conts=[c for c, _ in conts],
                 inst={c: a for c, a in conts}, paths=paths, data=data,
                 app=app, rid=rid, port=port, endpoints=list(endpoints), identity=identity,
-                identity_of={a: i for i, a in enumerate(insts)})
+                identity_of={a: i for i, a in enumerate(insts)}, ext=ext)
 
 
 SCENARIOS = {
@@ -100,6 +112,7 @@ SCENARIOS = {
     'a2': make_scn('a2', [('c1', 'a'), ('c2', 'a')]),
     'a2b1': make_scn('a2b1', [('c1', 'a'), ('c2', 'a'), ('c3', 'b')]),
     'a3': make_scn('a3', [('c1', 'a'), ('c2', 'a'), ('c3', 'a')]),
+    'k2': make_scn('k2', [('c1', 'a'), ('c2', 'a')], endpoints=()),       # extension, quick tier
     # beyond the model-checked constants (random schedules only)
     'a3b2e2': make_scn('a3b2e2', [('c1', 'a'), ('c2', 'a'), ('c3', 'b'), ('c4', 'a'), ('c5', 'b')],
                        endpoints=('http', 'ssh')),
@@ -108,11 +121,13 @@ SCENARIOS = {
 }
 
 
-def header(scn):
-    """What the trace spec needs to know about the scenario."""
+def header(scn, ext=False):
+    """What the trace spec needs to know about the scenario (ext: the server
+    presence nodes exist, i.e. the trace was recorded by World(ext=True))."""
     return dict(hosts=scn['hosts'], conts=scn['conts'], inst=scn['inst'], paths=scn['paths'],
                 data=scn['data'], kidx=list(range(1, 2 + len(scn['endpoints']))),
-                allpaths=[p for a in scn['paths'] for p in scn['paths'][a]])
+                allpaths=[p for a in scn['paths'] for p in scn['paths'][a]],
+                ext=dict(scn['ext'], sp=scn['ext']['sp'] if ext else {}))
 
 
 # ---------------------------------------------------------------------------
@@ -298,7 +313,7 @@ _CURRENT = [None]
 class World:
     """The two hosts, the shared store and the recorded trace."""
 
-    def __init__(self, scn, root, max_expire=2):
+    def __init__(self, scn, root, max_expire=2, ext=False, max_help=1):
         from treadmill import services, sysinfo, utils
         from treadmill.services import presence_service, _base_service
         if _CURRENT[0] is not None:
@@ -308,6 +323,11 @@ class World:
         self.scn = scn
         self.root = root
         self.max_expire = max_expire
+        self.ext = ext
+        self.max_help = max_help
+        self.nhelp = 0
+        self.admin = None
+        self.aslot = None           # helper run in flight
         self.services = services
         self.base = _base_service
         self.cls = presence_service.PresenceResourceService
@@ -318,6 +338,7 @@ class World:
         self.retries = []           # (impl, rsrc_id) since the last drain
         self.sys_exit = []
         self.sid = {}               # fake session -> 1, 2, ...
+        self.nsess = 0
         self.clients = {}           # id(impl) -> client
         self.impls = []             # keep every impl alive (ids stay unique)
         self.cname = {r: c for c, r in scn['rid'].items()}
@@ -396,7 +417,17 @@ class World:
             for a in scn['paths']:
                 for p in scn['paths'][a]:
                     setup.ensure_path(p.rsplit('/', 1)[0])
+            if ext:
+                self._setup_ext(setup)
             self.static = set(self.store.nodes)
+            if ext:
+                # server presence nodes: ephemeral nodes of the node's own init process
+                for i, h in enumerate(scn['hosts']):
+                    node = zkfake.ZkFakeClient(self.store)
+                    self.sid[node.session] = ADMIN_SESSION + 1 + i
+                    node.create(scn['ext']['sp'][h], b'', ephemeral=True)
+                self.admin = GatedClient(self.store, self)
+                self.sid[self.admin.session] = ADMIN_SESSION
             self.hosts = {}
             for h in scn['hosts']:
                 self.hosts[h] = _Host(h)
@@ -406,11 +437,37 @@ class World:
             self.close()
             raise
 
+    def _setup_ext(self, setup):
+        """What presence.kill_node reads: /servers/<h>, /placement/<h>,
+        /scheduled/<app> (the manifest), /server.presence."""
+        import json
+        scn = self.scn
+        for h in scn['hosts']:
+            setup.ensure_path('/servers')
+            setup.create(scn['ext']['srv'][h], b'{}')
+            setup.ensure_path(scn['ext']['plc'][h])
+        setup.ensure_path(scn['ext']['sproot'])
+        setup.ensure_path('/scheduled')
+        for a in scn['paths']:
+            setup.create(scn['ext']['sch'][a], json.dumps(self._manifest(a)).encode())
+        self._setup = setup
+
+    def _manifest(self, a):
+        scn = self.scn
+        m = dict(name=scn['app'][a],
+                 endpoints=[dict(name=e, port=8000 + i, proto='tcp')
+                            for i, e in enumerate(scn['endpoints'])])
+        if scn['identity']:
+            m['identity_group'] = 'grp'
+            m['identity'] = scn['identity_of'][a]
+        return m
+
     # -- life cycle ----------------------------------------------------------
     def _boot(self, host):
         """Start the presence service of a host: new session, new objects."""
         host.client = GatedClient(self.store, self)
-        self.sid[host.client.session] = len(self.sid) + 1
+        self.nsess += 1                  # sessions of presence services: 1, 2, 3, ...
+        self.sid[host.client.session] = self.nsess
         svc_dir = os.path.join(self.root, host.name, 'presence_svc')
         host.rs = self.services.ResourceService(service_dir=svc_dir, impl=self.cls)
         self._hostname[0] = host.name
@@ -427,6 +484,8 @@ class World:
             for host in getattr(self, 'hosts', {}).values():
                 if host.slot is not None and host.slot.state != 'done':
                     self.turn.abandon(host.slot)
+            if self.aslot is not None and self.aslot.state != 'done':
+                self.turn.abandon(self.aslot)
         finally:
             for p in reversed(self._patches):
                 try:
@@ -466,8 +525,10 @@ class World:
             sess[h] = self._sess(host.client.session) if host.up else 0
             slot = host.slot
             nxt[h] = list(slot.pending) if slot is not None and slot.state == 'gate' else []
+        aslot = self.aslot
         return dict(nodes=nodes, pres=pres, queue=queue, active=active, sess=sess, next=nxt,
-                    linger=sorted(self._sess(x) for x in self.linger))
+                    linger=sorted(self._sess(x) for x in self.linger),
+                    anext=list(aslot.pending) if aslot is not None and aslot.state == 'gate' else [])
 
     def _log(self, line):
         line['post'] = self.post()
@@ -540,6 +601,11 @@ class World:
         client.put(scn['rid'][c], req)                   # the real producer (runtime/linux/_run.py)
         self.submitted.append(c)
         self.where[c] = h
+        if self.ext:                     # the scheduler's placement, read by kill_node
+            pl = '%s/%s' % (scn['ext']['plc'][h], scn['app'][a])
+            if pl not in self.store.nodes:
+                self._setup.create(pl, b'')
+                self.static.add(pl)
         stamp = (1000000 + len(self.submitted)) * 10 ** 9
         os.utime(self._link(h, c), ns=(stamp, stamp), follow_symlinks=False)
         host.queue.append(('create', c))
@@ -720,6 +786,78 @@ class World:
         self._log(dict(ev='restart', h=h, s=self._sess(host.client.session), rord=rord))
         return True
 
+    # -- extension: the helpers of treadmill/presence.py -----------------------------
+    def can_abegin(self):
+        busy = any(self.hosts[x].queue or self.hosts[x].slot for x in self.scn['hosts']) or \
+            any(self._live(self.where[c], c) for c in self.submitted) or \
+            len(self.submitted) < len(self.scn['conts'])
+        return self.ext and self.aslot is None and self.nhelp < self.max_help and busy
+
+    def abegin(self, kind, h, a=None):
+        """An administrator starts presence.kill_node(h), or a node-side tool the
+        EndpointPresence.unregister_* of instance a on behalf of host h, from a
+        session of its own; the run stops at its first ZooKeeper call."""
+        if not self.can_abegin() or h not in self.hosts or (kind == 'unreg' and a not in self.scn['paths']):
+            return False
+        from treadmill import presence
+        admin = self.admin
+        slot = _Slot(h, kind, a or '')
+        if kind == 'kill':
+            def fn():
+                presence.kill_node(admin, h)
+        else:
+            manifest = self._manifest(a)
+
+            def fn():
+                ep = presence.EndpointPresence(admin, manifest, hostname=h, appname=manifest['name'])
+                ep.unregister_running()
+                ep.unregister_endpoints()
+                ep.unregister_identity()
+        self.aslot = slot
+        self.nhelp += 1
+        self.turn.start(slot, fn)
+        self.schedule.append(('KillBegin', [h]) if kind == 'kill' else ('UnregBegin', [h, a]))
+        self._log(dict(ev='abegin', kind=kind, h=h, a=a or ''))
+        return True
+
+    def can_acall(self):
+        return self.aslot is not None and self.aslot.state == 'gate'
+
+    def acall(self, order=None):
+        if not self.can_acall():
+            return False
+        slot = self.aslot
+        self.calls = []
+        self.turn.step(slot)
+        if len(self.calls) != 1 or self.calls[0][0] is not self.admin:
+            raise tlc.MachineryError('turnstile: %d ZooKeeper calls in one helper step' % len(self.calls))
+        rec = self.calls[0][1]
+        fired = self._drain_retries(order)
+        self.schedule.append(('ACall', [[list(f) for f in fired]]))
+        self._log(dict(
+            ev='acall', s=ADMIN_SESSION, rk=slot.kind, rh=slot.host, ra=slot.cont,
+            op=rec['op'], path=rec['path'], res=rec['res'],
+            w=[dict(op=op, path=p, o=-1 if o is None else self._sess(o), a=bool(a))
+               for op, p, _s, o, a in rec['w']],
+            fired=fired))
+        return True
+
+    def can_aend(self):
+        return self.aslot is not None and self.aslot.state == 'done'
+
+    def aend(self):
+        if not self.can_aend():
+            return False
+        slot = self.aslot
+        slot.thread.join(WATCHDOG_S)
+        self.aslot = None
+        res = 'ok'
+        if slot.exc is not None:
+            res = 'exc:' + (slot.exc if isinstance(slot.exc, str) else type(slot.exc).__name__)
+        self.schedule.append(('AEnd', [1]))
+        self._log(dict(ev='aend', res=res))
+        return True
+
     # -- schedules -----------------------------------------------------------------
     def apply(self, act, args):
         """One action of a schedule; False if it does not apply to the state the
@@ -743,6 +881,14 @@ class World:
             return self.crash(args[0])
         if act == 'Reap':
             return self.reap(args[0], args[1] if len(args) > 1 else None)
+        if act == 'KillBegin':
+            return self.abegin('kill', args[0])
+        if act == 'UnregBegin':
+            return self.abegin('unreg', args[0], args[1])
+        if act == 'ACall':
+            return self.acall(args[0] if args else None)
+        if act == 'AEnd':
+            return self.aend()
         if act == 'Pad':
             return True
         if act == 'Run':                 # hand-written schedules: a whole request
@@ -779,6 +925,15 @@ class World:
                 out.append(('Crash', [h]))
         for x in self.linger:
             out.append(('Reap', [self._sess(x)]))
+        if self.can_abegin():
+            for h in scn['hosts']:
+                out.append(('KillBegin', [h]))
+                for a in scn['paths']:
+                    out.append(('UnregBegin', [h, a]))
+        if self.can_acall():
+            out.append(('ACall', []))
+        if self.can_aend():
+            out.append(('AEnd', [1]))
         return out
 
     def drain(self):
@@ -792,13 +947,20 @@ class World:
                 if n > 200:
                     raise tlc.MachineryError('request on %s does not terminate' % h)
             self.end(h)
+        n = 0
+        while self.can_acall():
+            self.acall()
+            n += 1
+            if n > 200:
+                raise tlc.MachineryError('helper run does not terminate')
+        self.aend()
 
 
-def run_schedule(scn, schedule, max_expire=2):
+def run_schedule(scn, schedule, max_expire=2, ext=False):
     """Replay a schedule (list of (action, args)) on the real services.  Returns
     (lines, executed schedule, number of actions that did not apply)."""
     root = tlc.scratch('verif-c17-')
-    world = World(scn, root, max_expire=max_expire)
+    world = World(scn, root, max_expire=max_expire, ext=ext)
     try:
         for act, args in schedule:
             if not world.apply(act, list(args)):
@@ -809,21 +971,24 @@ def run_schedule(scn, schedule, max_expire=2):
         world.close()
 
 
-def run_random(scn, rng, steps, max_expire=2, p_expire=0.04):
+def run_random(scn, rng, steps, max_expire=2, p_expire=0.04, ext=False):
     """A seeded random schedule chosen on line against the real system."""
     root = tlc.scratch('verif-c17-')
-    world = World(scn, root, max_expire=max_expire)
+    world = World(scn, root, max_expire=max_expire, ext=ext)
     try:
         for _ in range(steps):
             acts = world.enabled()
             if not acts:
                 break
-            calls = [a for a in acts if a[0] in ('Call', 'Begin', 'End', 'Restart')]
+            calls = [a for a in acts if a[0] in ('Call', 'Begin', 'End', 'Restart', 'ACall', 'AEnd')]
+            helpers = [a for a in acts if a[0] in ('KillBegin', 'UnregBegin')]
             env = [a for a in acts if a[0] in ('Submit', 'Finish')]
             exp = [a for a in acts if a[0] in ('Expire', 'Crash')]
             reap = [a for a in acts if a[0] == 'Reap']
             r = rng.random()
-            if exp and r < p_expire:
+            if helpers and rng.random() < 0.08:
+                act, args = rng.choice(helpers)
+            elif exp and r < p_expire:
                 act, args = rng.choice(exp)
             elif reap and (r < p_expire + 0.06 or len(acts) == len(reap)):
                 act, args = rng.choice(reap)
@@ -833,13 +998,13 @@ def run_random(scn, rng, steps, max_expire=2, p_expire=0.04):
                 act, args = rng.choice(calls)
             else:
                 act, args = rng.choice(acts)
-            if act in ('Call', 'Expire', 'Reap'):
+            if act in ('Call', 'Expire', 'Reap', 'ACall'):
                 # the order in which simultaneous retries arrive is random too
                 def shuffled(got):
                     got = list(got)
                     rng.shuffle(got)
                     return got
-                world.apply(act, [args[0], shuffled])
+                world.apply(act, [shuffled] if act == 'ACall' else [args[0], shuffled])
             elif act == 'Restart':
                 h = args[0]
                 live = [c for c in world.submitted if world.where[c] == h and world._live(h, c)]  # pylint: disable=protected-access
